@@ -2,7 +2,7 @@
 
 Abstract -> concrete: PGN kinds A/B/F/CLAIM/UNK -> 127250 / 130306 / 128275 / 60928 / a PGN absent from
 the database; filter entries by number or by id (the id is spelled in a random letter case);
-NAMEs 1/2/3 -> address-claim payloads of Furuno / Maretron / an unknown manufacturer code; the
+NAMEs 1/2/3 -> address-claim payloads of Garmin / BEP Marine (names shared by several manufacturer numbers; the number varies with the address) / an unknown manufacturer code; the
 discovery window -> a settable clock substituted for decoder.datetime.
 """
 from __future__ import annotations
@@ -17,13 +17,13 @@ PGN = {"A": 127250, "B": 130306, "F": 128275, "CLAIM": 60928, "P": 61184, "P1": 
 IDS = {"A": "vesselHeading", "B": "windData", "F": "distanceLog", "CLAIM": "isoAddressClaim",
        "P1": "victronBatteryRegister", "P2": "0xef00ManufacturerProprietarySingleFrameAddressed",
        "Q1": "airmarBootStateAcknowledgment", "T1": "temperature", "T2": "temperatureExtendedRange"}
-MFR = {"m1": "Furuno", "m2": "Maretron"}
+MFR = {"m1": "Garmin", "m2": "BEP Marine"}     # names that several manufacturer numbers share (229 / 645, 116 / 295)
 UNKNOWN_PGN = 129285 + 30000        # checked at run time not to be in the database
 SRC = {1: 11, 2: 12, 3: 13}
 
 
 def name_payload(name: int, src: int) -> bytes:
-    mfr = {1: 1855, 2: 137, 3: 2000}[name]
+    mfr = {1: (229, 645, 229), 2: (116, 295, 116), 3: (2000, 2000, 2000)}[name][(src - 1) % 3]
     v = (1000 + name) | (mfr << 21) | (1 << 32) | (130 << 40) | (25 << 49) | (4 << 60) | (1 << 63)
     return v.to_bytes(8, "little")
 
@@ -141,6 +141,17 @@ BAD_INPUTS = [("tcp", bytes([0x80, 0x09, 0xF5, 0x13, 0x0B])),                   
 # a first frame of the fast-packet PGN cut after its counter byte (no length byte): refused with an error, for every
 # source and sequence counter the histories use - it must leave the reassembly buffer of that stream alone
 BAD_INPUTS += [("tcp", fp.ebyte_packet(128275, s, 255, 6, bytes([q << 5]))) for s in (11, 12, 13) for q in (0, 1, 2, 3)]
+
+
+def _refused_claim(src_idx: int) -> bytes:
+    """an address claim the decoder refuses with an error (unique number 0x1FFFFD is outside its range) from a source
+    of the histories, with another NAME than any the source may have claimed: what the source claimed before stays"""
+    v = int.from_bytes(name_payload(3, src_idx), "little")
+    v = (v & ~0x1FFFFF) | 0x1FFFFD
+    return v.to_bytes(8, "little")
+
+
+BAD_INPUTS += [("tcp", fp.ebyte_packet(60928, SRC[i], 255, 6, _refused_claim(i))) for i in (1, 2, 3)]
 
 
 def feed_bad(dec, i: int):
